@@ -16,7 +16,7 @@ RULES = [(r' < ', ' <= '), (r' <= ', ' < '), (r' > ', ' >= '), (r' >= ', ' > '),
          (r'\.is_zero\(\)', '.is_zero() == false'), (r'!(\w+)\.is_zero\(\)', r'\1.is_zero()'),
          (r'\bold_piece_size\b', 'new_piece_size'), (r'\bnew_piece_size\b', 'old_piece_size'),
          (r'\bprev_key_offset\b', 'key_offset'), (r' \+= 1;', ' += 2;'), (r' -= 1;', ' -= 2;')]
-CHECKS = ['C01', 'C04', 'C05', 'C06', 'C08', 'C17']
+CHECKS = os.environ.get('MUT_CHECKS', 'C01,C04,C05,C06,C08,C17').split(',')
 
 
 def candidates(repo):
@@ -74,7 +74,13 @@ def main():
         lines[li] = new
         open(p, 'w').write('\n'.join(lines))
         rec = {'file': f, 'line': li + 1, 'old': old.strip(), 'new': new.strip()}
-        r = sh(['cargo', 'test', '--workspace', '--no-fail-fast', '--offline'], cwd=W, env=env, timeout=3000)
+        try:
+            r = sh(['cargo', 'test', '--workspace', '--no-fail-fast', '--offline'], cwd=W, env=env, timeout=1500)
+        except subprocess.TimeoutExpired:
+            rec['status'] = 'killed-by-existing-tests'; rec['note'] = 'the test suite hangs'
+            open(res_path, 'a').write(json.dumps(rec) + '\n')
+            sh(['pkill', '-f', W + '/target'])
+            continue
         fails = sum(int(x) for x in re.findall(r'test result: \w+\. \d+ passed; (\d+) failed', r.stdout))
         if r.returncode != 0 or fails:
             rec['status'] = 'does-not-compile' if 'error[' in r.stderr or 'error:' in r.stderr and 'test result' not in r.stdout else 'killed-by-existing-tests'
